@@ -112,7 +112,8 @@ class JSONValidator:
             if depth > self.max_depth:
                 return False, f"JSON depth exceeds limit ({depth} > {self.max_depth})"
             return True, None
-        except json.JSONDecodeError as e:
+        except ValueError as e:
+            # JSONDecodeError, and e.g. integer literals beyond the int-conversion limit
             return False, f"Invalid JSON: {e}"
         except RecursionError:
             # Nesting deep enough to overflow the parser is over any depth limit
